@@ -50,6 +50,7 @@ def run(ctx, sess):
     ctx.rule('C09.4', 'non-finite values are skipped at every level: each accumulating statement of the summary reductions is control dependent on an isfinite test, and the reader converts a non-finite summary entry to an empty accumulator')
     ctx.rule('C09.6', 'single packer: every function that adds entries to the level-0 sample block also honours the pending partial byte (reads shift_amount), i.e. goes through the bit packer')
     ctx.rule('C09.7', 'level-0 data is left out only on request or when a predicate that examines every byte of the block said it is constant')
+    ctx.rule('C09.9', 'the realign of a sub-byte overlap reads exactly the caller bytes that hold new samples: traced for small overlaps and lengths (widths 1 and 4), the source bytes read are the interval from the byte of the first new sample to the last byte of the caller\'s buffer, none skipped, none beyond it')
     ctx.rule('C09.5', 'scratch subscripts stay inside the scratch array: every subscript of the scratch, directly or through a local pointer initialised from it, has an upper bound (loop condition, min-clamp, per-width evaluation) inside its 32 KiB')
     f = P.fn('jls_wr_fsr_data')
     ctx.saw(f)
@@ -442,6 +443,7 @@ def run(ctx, sess):
                        ('index not bounded for width %s' % worst[0] if worst and worst[1] is None else
                         'index up to %s (width %s) x %d bytes exceeds the %d-byte scratch' % (worst[1], worst[0], esz, scratch_bytes)))
     ctx.floor('scratch subscripts', n5, 3)
+    realign_reads_rule(ctx, P, f, fd, psz, dts)
 
 
 def single_packer(ctx, P):
@@ -547,3 +549,61 @@ def omission_criterion(ctx, P):
                'explicit request' if from_request else ('predicate scanning every byte of the block' if from_scan else
                'the block is left out on the word of %s, which does not examine every sample: written samples inside such a block are lost and read back as synthesised values' % (unverified or 'an unverified criterion')))
     ctx.floor('definitions that can enable omission', n, 2)
+
+
+def realign_reads_rule(ctx, P, f, fd, psz, dts):
+    from ..fd import trace_calls
+    BASE = 0x600000
+    # the local through which the caller's bytes are read: a pointer decl initialised from the `data` parameter
+    src = None
+    for d in f.events('decl'):
+        if d.e is not None and (d.t or '').startswith('p:u8') and any(nd.get('op') == 'ref' and nd.get('name') == 'data' and nd.get('rk') == 'param' for nd in walk(d.e)):
+            src = d.name
+    if src is None:
+        raise AnalysisBroken('jls_wr_fsr_data: byte pointer over the caller data not found')
+    by_width = {}
+    for dt in dts:
+        by_width.setdefault(fd.call(psz, [dt]), dt)
+    bad = []
+    cases = 0
+    for w in sorted(x for x in by_width if x < 8):
+        dt = by_width[w]
+        for ov in range(1, 12):
+            if (ov * w) % 8 == 0:
+                continue               # byte aligned: no realign
+            for new in (1, 2, 3, 7, 8, 9, 16, 17):
+                n = ov + new
+                reads = set()
+
+                def on_event(ev, env, sym, reads=reads):
+                    if ev.e is None or ev.k not in ('decl', 'store'):
+                        return
+                    for nd in walk(ev.e):
+                        if nd.get('op') == 'sub' and strip_casts(nd['k'][0]).get('op') == 'ref' and strip_casts(nd['k'][0]).get('name') == src and src in env:
+                            try:
+                                reads.add(env[src] + fd.ev(f, nd['k'][1], env) - BASE)
+                            except (Top, ZeroDivisionError, KeyError):
+                                reads.add(None)
+                env = {'self': 1, 'sample_id': 100 - ov, 'data': BASE, 'data_length': n,
+                       'self.parent.signal_def.data_type': dt, 'self.data': 1,
+                       'self.data.header.timestamp': 0, 'self.data.header.entry_count': 100,
+                       'b.header.timestamp': 0, 'b.header.entry_count': 100}
+                try:
+                    trace_calls(P, f, env, assume_calls=0, on_event=on_event, no_inline=('wr_data_inner', 'wr_data', 'jls_core_fsr_sample_buffer_alloc'), max_steps=60000)
+                except Top:
+                    bad.append('width %d overlap %d new %d: not decidable' % (w, ov, new))
+                    continue
+                cases += 1
+                first = (ov * w) // 8
+                last = (n * w + 7) // 8 - 1          # last byte of the caller's buffer
+                want = set(range(first, last + 1))
+                if None in reads:
+                    bad.append('width %d overlap %d new %d: a source index is not decidable' % (w, ov, new))
+                elif reads != want:
+                    miss, extra = sorted(want - reads), sorted(reads - want)
+                    bad.append('width %d, overlap %d, %d new samples: caller buffer is %d bytes; %s%s' % (
+                        w, ov, new, last + 1, ('byte(s) %s holding new samples are never read (those samples read back as 0) ' % miss) if miss else '',
+                        ('byte(s) %s outside the new part / the buffer are read' % extra) if extra else ''))
+    ctx.ob('C09.9', not bad, f.name, 'realign reads exactly the bytes of the new samples', f.where(),
+           '%d (width, overlap, length) cases traced' % cases if not bad else '; '.join(bad[:2]) + (' (+%d more)' % (len(bad) - 2) if len(bad) > 2 else ''))
+    ctx.floor('realign cases traced', cases, 40)
